@@ -2,12 +2,14 @@ SPECIFICATION Spec
 CONSTANTS
   MaxW = 3
   Avail = 16
-  NN = 4
+  NN = 3
   Srcs = {"vec", "iterx"}
   Terms = {"collect_vec", "collect_x", "count", "find", "reduce"}
   Nts = {2, 3}
   Css <- Cs_1_2
   Fans <- Fans_012
+  Crashes <- NoCrash
+  Kinds = {"flat", "fmap", "filter"}
 INVARIANTS
   TypeOK
   P_OrderedCollect
